@@ -142,7 +142,7 @@ const EFFECT_CHUNK: usize = 120;
 const AGG: usize = usize::MAX - 1;
 
 const AGG_CHUNK: usize = 100;
-const AGG_TYS: [&str; 3] = ["i32", "i64", agg::CONST_TAG];
+const AGG_TYS: [&str; 4] = ["i32", "i64", agg::CONST_TAG, "u64"];
 
 /// (element type, programs) of the aggregate family, see agg.rs
 fn agg_programs() -> &'static Vec<(&'static str, Vec<agg::AggProg>)> {
@@ -162,6 +162,18 @@ fn agg_units(_cfg: &Cfg) -> Vec<(usize, usize)> {
 }
 
 fn agg_inputs(t: &str) -> Vec<(i64, i64)> {
+    if t == "u64" {
+        // unsigned: values that need more than 32 bits (seeded change C20-8: the evaluator
+        // stored only the low four bytes of a u64), no negative ones
+        let one = [0i64, 1, 2, 7, 100, 1 << 20, 1 << 32, (1 << 32) + 5, 1 << 40, i64::MAX];
+        let mut v = vec![];
+        for a in one {
+            for b in one {
+                v.push((a, b));
+            }
+        }
+        return v;
+    }
     // moderate values: the evaluator (built with overflow checks) stops loudly on wrapping
     // arithmetic, and offsets, not arithmetic, are the subject here; one wide value per type
     let wide = if t != "i64" { 1 << 20 } else { 1i64 << 40 };
@@ -202,7 +214,7 @@ fn run_aggregates(c: usize, cx: &mut Cx) {
         }
     };
     let inputs = agg_inputs(t);
-    let scalar = |x: i64| if *t != "i64" { Scalar::I32(x as i32) } else { Scalar::I64(x) };
+    let scalar = |x: i64| match *t { "i64" => Scalar::I64(x), "u64" => Scalar::U64(x as u64), _ => Scalar::I32(x as i32) };
     let mut results: Vec<Vec<Option<Option<Scalar>>>> = vec![];
     for (i, p) in progs.iter().enumerate() {
         let mut row = vec![];
@@ -241,9 +253,14 @@ fn run_aggregates(c: usize, cx: &mut Cx) {
     enum F {
         A(TypedFunc<NoCtx, fn(i32, i32) -> i32>),
         B(TypedFunc<NoCtx, fn(i64, i64) -> i64>),
+        C(TypedFunc<NoCtx, fn(u64, u64) -> u64>),
     }
     for (i, p) in progs.iter().enumerate() {
-        let f = if *t != "i64" { pkg.get_function(&p.name).map(F::A).map_err(|e| e.to_string()) } else { pkg.get_function(&p.name).map(F::B).map_err(|e| e.to_string()) };
+        let f = match *t {
+            "i64" => pkg.get_function(&p.name).map(F::B).map_err(|e| e.to_string()),
+            "u64" => pkg.get_function(&p.name).map(F::C).map_err(|e| e.to_string()),
+            _ => pkg.get_function(&p.name).map(F::A).map_err(|e| e.to_string()),
+        };
         let Ok(f) = f else {
             cx.count("agg_get_function_failed", 1);
             continue;
@@ -262,6 +279,7 @@ fn run_aggregates(c: usize, cx: &mut Cx) {
             let got = match &f {
                 F::A(f) => Scalar::I32(f.call(*a as i32, *b as i32)),
                 F::B(f) => Scalar::I64(f.call(*a, *b)),
+                F::C(f) => Scalar::U64(f.call(*a as u64, *b as u64)),
             };
             cx.transitions(1);
             cx.validated(1);
